@@ -493,7 +493,33 @@ def rule_once(ctx):
         W.fifo_batch(ctx, ctx.program, crate, fam, "R6")
 
 
+def rule_distinct_counters(ctx):
+    """R4: per-worker statistics are per worker: a vector of shared handles (`Arc`, `Rc`) is never built by repeating one handle
+    (`vec![Arc::new(x); n]` clones the handle n times - every slot is the same counter); each slot gets its own allocation"""
+    P = ctx.program
+    n = 0
+    for b in P.bodies.values():
+        if b.crate not in CRATES or not b.blocks:
+            continue
+        for blk, t in b.calls():
+            nm = callee_of(t)
+            if nm.endswith("vec::from_elem") or nm.endswith("::resize") or nm.endswith("iter::repeat") or nm.endswith("repeat_n"):
+                n += 1
+                sub = " ".join(t.get("substs") or [])
+                shared = "Arc<" in sub or "Rc<" in sub
+                if nm.endswith("::resize") or "repeat" in nm:
+                    S_ = T.Slicer(b, P)
+                    a = Q.call_args(b, S_, blk, t)
+                    shared = any(x[0] == "call" and x[1].endswith(("Arc::<T>::new", "Rc::<T>::new")) for y in a for x in T.walk(y))
+                ctx.check(not shared, "R4", "distinct-slots:%s:%s" % (CRATES[b.crate], T.short(b.path).split("::")[-1]),
+                          "repeated value is not a shared handle",
+                          "%s builds a vector by repeating one shared handle (%s): all workers share a single counter / channel, so a drop or dispatch charged to one "
+                          "worker is charged to all of them and the per-worker figures no longer add up to the totals" % (T.short(b.path), sub[:60]), ctx.loc(b, blk))
+    ctx.extra["repeat_sites"] = n
+
+
 def run(ctx):
+    rule_distinct_counters(ctx)
     rule_once(ctx)
     rule_R6(ctx)
     rule_R1(ctx)
